@@ -4,6 +4,9 @@
 //!  P <cpu 0 x86|1 amd64|2 arm64> <os 0 windows|1 linux> <code> <nparams> <info0> <info1> <excaddr>
 //!    <ctx: - | A v*17> <instr hex|-> <kind> <n> (a b p)*n
 //!      whole process_minidump on a synthesized dump
+//!  Q <arch: processor_architecture> <os> <code> <exception_flags> <nparams> <info0> <info1> <excaddr>
+//!    <ctx> <instr hex|-> <decoded: D lea n (base index scale disp)*n | U | -> <kind> <n> (a b p)*n
+//!      whole process_minidump; answer = adjusted#flips (adjusted = none | nc:<addr> | null:<offset>)
 //! answer: [prefix#]flip,flip,...   flip = addr:reg:nc:null:low:nearby:poison:confbits
 use minidump::format as md;
 use minidump::*;
@@ -117,6 +120,77 @@ fn parse_regions(t: &mut Toks) -> (u64, Vec<(u64, u64, u64)>) {
     (kind, (0..n).map(|_| (t.u64(), t.u64(), t.u64())).collect())
 }
 
+/// synthesize a dump and run process_minidump on it: (crash address, adjusted address, reason, flips)
+#[allow(clippy::too_many_arguments)]
+fn run_dump(
+    arch: u16,
+    os: u64,
+    code: u32,
+    flags: u32,
+    nparams: u32,
+    info0: u64,
+    info1: u64,
+    excaddr: u64,
+    ctxv: Option<Vec<u64>>,
+    instr: &[u8],
+    kind: u64,
+    regs: &[(u64, u64, u64)],
+) -> (u64, String, String, String) {
+    let e = TEndian::Little;
+    let vals = ctxv.clone().unwrap_or(vec![0; 17]);
+    let rip = vals[16];
+    let rsp = vals[7];
+    let context = if arch == md::ProcessorArchitecture::PROCESSOR_ARCHITECTURE_AMD64 as u16 {
+        amd64_ctx_section(&vals)
+    } else if arch == md::ProcessorArchitecture::PROCESSOR_ARCHITECTURE_ARM64 as u16 {
+        arm64_context(e, rip, rsp)
+    } else {
+        x86_context(e, rip as u32, rsp as u32)
+    };
+    let stack = Memory::with_section(Section::with_endian(e), 0);
+    let thread = Thread::new(e, 1, &stack, &context);
+    let system_info = SystemInfo::new(e)
+        .set_processor_architecture(arch)
+        .set_platform_id(if os == 0 { 2 } else { 0x8201 });
+    let ctx_label = context.file_offset();
+    let ctx_size = context.file_size();
+    let mut dump = SynthMinidump::with_endian(e).add(context);
+    let mut ex = Exception::new(e);
+    ex.thread_id = 1;
+    ex.exception_record.exception_code = code;
+    ex.exception_record.exception_flags = flags;
+    ex.exception_record.exception_address = excaddr;
+    ex.exception_record.number_parameters = nparams;
+    ex.exception_record.exception_information[0] = info0;
+    ex.exception_record.exception_information[1] = info1;
+    if ctxv.is_some() {
+        ex.thread_context = (ctx_size.value().unwrap() as u32, ctx_label.value().unwrap() as u32);
+    }
+    dump = dump.add_thread(thread).add_exception(ex).add_system_info(system_info).add_memory(stack);
+    if !instr.is_empty() {
+        dump = dump.add_memory(Memory::with_section(Section::with_endian(e).append_bytes(instr), rip));
+    }
+    if kind == 0 {
+        for &(b, s, p) in regs {
+            dump = dump.add_memory_info(MemoryInfo::new(e, b, b, 0, s, 0, p as u32, 0));
+        }
+    } else {
+        dump = dump.set_linux_maps(maps_text(regs).as_bytes());
+    }
+    let bytes = dump.finish().unwrap();
+    let md = Minidump::read(bytes).expect("read");
+    let rt = tokio::runtime::Builder::new_current_thread().build().unwrap();
+    let provider = minidump_unwind::Symbolizer::new(minidump_unwind::simple_symbol_supplier(vec![]));
+    let state = rt.block_on(minidump_processor::process_minidump(&md, &provider)).expect("process");
+    let ei = state.exception_info.expect("exception info");
+    let adj = match &ei.adjusted_address {
+        None => "none".to_string(),
+        Some(AdjustedAddress::NonCanonical(a)) => format!("nc:{}", a.0),
+        Some(AdjustedAddress::NullPointerWithOffset(o)) => format!("null:{}", o.0),
+    };
+    (ei.address.0, adj, format!("{}", ei.reason), fmt_flips(&ei.possible_bit_flips))
+}
+
 fn run(line: &str) -> String {
     let mut t = Toks::new(line);
     match t.str() {
@@ -162,57 +236,40 @@ fn run(line: &str) -> String {
             let ctxv = parse_ctx(&mut t);
             let instr = unhex(t.str());
             let (kind, regs) = parse_regions(&mut t);
-            let e = TEndian::Little;
-            let vals = ctxv.clone().unwrap_or(vec![0; 17]);
-            let rip = vals[16];
-            let rsp = vals[7];
-            let (context, arch) = match cpu {
-                0 => (x86_context(e, rip as u32, rsp as u32), md::ProcessorArchitecture::PROCESSOR_ARCHITECTURE_INTEL as u16),
-                1 => (amd64_ctx_section(&vals), md::ProcessorArchitecture::PROCESSOR_ARCHITECTURE_AMD64 as u16),
-                _ => (arm64_context(e, rip, rsp), md::ProcessorArchitecture::PROCESSOR_ARCHITECTURE_ARM64 as u16),
+            let arch = match cpu {
+                0 => md::ProcessorArchitecture::PROCESSOR_ARCHITECTURE_INTEL as u16,
+                1 => md::ProcessorArchitecture::PROCESSOR_ARCHITECTURE_AMD64 as u16,
+                _ => md::ProcessorArchitecture::PROCESSOR_ARCHITECTURE_ARM64 as u16,
             };
-            let stack = Memory::with_section(Section::with_endian(e), 0);
-            let thread = Thread::new(e, 1, &stack, &context);
-            let system_info = SystemInfo::new(e)
-                .set_processor_architecture(arch)
-                .set_platform_id(if os == 0 { 2 } else { 0x8201 });
-            let ctx_label = context.file_offset();
-            let ctx_size = context.file_size();
-            let mut dump = SynthMinidump::with_endian(e).add(context);
-            let mut ex = Exception::new(e);
-            ex.thread_id = 1;
-            ex.exception_record.exception_code = code;
-            ex.exception_record.exception_address = excaddr;
-            ex.exception_record.number_parameters = nparams;
-            ex.exception_record.exception_information[0] = info0;
-            ex.exception_record.exception_information[1] = info1;
-            if ctxv.is_some() {
-                ex.thread_context = (ctx_size.value().unwrap() as u32, ctx_label.value().unwrap() as u32);
-            }
-            dump = dump.add_thread(thread).add_exception(ex).add_system_info(system_info).add_memory(stack);
-            if !instr.is_empty() {
-                dump = dump.add_memory(Memory::with_section(Section::with_endian(e).append_bytes(&instr), rip));
-            }
-            if kind == 0 {
-                for &(b, s, p) in &regs {
-                    dump = dump.add_memory_info(MemoryInfo::new(e, b, b, 0, s, 0, p as u32, 0));
+            let (address, adj, reason, flips) = run_dump(arch, os, code, 0, nparams, info0, info1, excaddr, ctxv, &instr, kind, &regs);
+            format!("{}/{}/{}#{}", address, adj, reason, flips)
+        }
+        "Q" => {
+            let arch = t.u64() as u16;
+            let os = t.u64();
+            let code = t.u64() as u32;
+            let flags = t.u64() as u32;
+            let nparams = t.u64() as u32;
+            let info0 = t.u64();
+            let info1 = t.u64();
+            let excaddr = t.u64();
+            let ctxv = parse_ctx(&mut t);
+            let instr = unhex(t.str());
+            // the decoded form is for the model only: D <lea> <n> (b i s d)*n | U | -
+            match t.str() {
+                "D" => {
+                    let _lea = t.u64();
+                    let n = t.usize();
+                    for _ in 0..4 * n {
+                        t.str();
+                    }
                 }
-            } else {
-                dump = dump.set_linux_maps(maps_text(&regs).as_bytes());
+                "U" | "-" => {}
+                x => panic!("dec {}", x),
             }
-            let bytes = dump.finish().unwrap();
-            let md = Minidump::read(bytes).expect("read");
-            let rt = tokio::runtime::Builder::new_current_thread().build().unwrap();
-            let provider = minidump_unwind::Symbolizer::new(minidump_unwind::simple_symbol_supplier(vec![]));
-            let state = rt.block_on(minidump_processor::process_minidump(&md, &provider)).expect("process");
-            let ei = state.exception_info.expect("exception info");
-            let adj = match &ei.adjusted_address {
-                None => "none".to_string(),
-                Some(AdjustedAddress::NonCanonical(a)) => format!("nc:{}", a.0),
-                Some(AdjustedAddress::NullPointerWithOffset(o)) => format!("null:{}", o.0),
-            };
-            // registers of the exception context as the processed state saw them (frame 0 of the crashing thread)
-            format!("{}/{}/{}#{}", ei.address.0, adj, ei.reason, fmt_flips(&ei.possible_bit_flips))
+            let (kind, regs) = parse_regions(&mut t);
+            let (_address, adj, _reason, flips) = run_dump(arch, os, code, flags, nparams, info0, info1, excaddr, ctxv, &instr, kind, &regs);
+            format!("{}#{}", adj, flips)
         }
         x => panic!("kind {}", x),
     }
